@@ -94,6 +94,12 @@ class VJP(SxContract):
             m.W2_ = sx.sym_array(ctx, "v", (h, K))
             m.b2_ = sx.sym_array(ctx, "e", (1, K))
             m.W_skip_ = sx.sym_array(ctx, "s", (d, K))
+            if self.variant == "eliminated0":
+                # feature 0 was eliminated by the proximal step: its skip and first-layer rows are exact zeros -- the direction handed to
+                # the optimiser for these rows is still the derivative (they may come back); single sample, so that the derivative
+                # w.r.t. a row entry is x[0,0] times the derivative w.r.t. the bias entering the same unit
+                m.W_skip_[0, :] = sx.Sx(dag.ZERO)
+                m.W1_[0, :] = sx.Sx(dag.ZERO)
         elif f == "categorical":
             m = CM.CategoricalModel(n_clusters=K)
             m.logits_ = sx.sym_array(ctx, "l", (n, K))
@@ -131,6 +137,12 @@ class VJP(SxContract):
             if not ok:
                 continue
             for idx in np.ndindex(*w.shape):
+                if self.variant == "eliminated0" and w[idx].n.op != "v":
+                    # an exactly-zero row entry: W1_[0,a] enters unit a like b1_[0,a] scaled by x[0,0]; W_skip_[0,k] like b2_[0,k]
+                    bias = self.model.b1_ if w is self.model.W1_ else self.model.b2_
+                    lhs = dag.mul(sx.lift(inp["X"][0, 0]), dag.diff(obj, bias[0, idx[1]].n.args[0], {}))
+                    yield f"direction[{j}]{list(idx)} of the eliminated feature == -x[0,0] * d/d bias", prove.eq(dag.neg(lhs), g[idx], smooth_only=True)
+                    continue
                 name = w[idx].n.args[0]
                 lhs = dag.diff(obj, name, {})
                 yield f"direction[{j}]{list(idx)}==-d/d{name}", prove.eq(dag.neg(lhs), g[idx], smooth_only=True)
@@ -213,6 +225,7 @@ class _RecOptimiser:
 
     def update_params(self, params, grads):
         self.calls.append((params, [np.array(g, dtype=object, copy=True) for g in grads]))
+        self.seen = [np.array(p, dtype=object, copy=True) for p in params]      # the parameters as the optimiser finds them
 
 
 class RIMUpdate(SxContract):
@@ -220,16 +233,17 @@ class RIMUpdate(SxContract):
     gradients + d/dW [reg * ||W||^2] on the weight matrix and unchanged on the bias (documented l2 penalty)."""
     fn = "gemclus.linear._linear_geminis.RIM._update_weights"
 
-    def __init__(self, d, K):
-        self.d, self.K = d, K
-        self.label = f"RIM._update_weights[d={d},K={K}]"
+    def __init__(self, d, K, solver="adam"):
+        self.d, self.K, self.solver = d, K, solver
+        self.label = f"RIM._update_weights[d={d},K={K}" + ("" if solver == "adam" else f",solver={solver}") + "]"
 
     def patches(self):
         return std_patches()
 
     def build(self, ctx):
-        m = LG.RIM(n_clusters=self.K)
+        m = LG.RIM(n_clusters=self.K, solver=self.solver)
         m.reg = ctx.var("reg", "+", lo=0.05, hi=1.0)
+        self.lr = ctx.var("lr", "+", lo=0.001, hi=0.5)
         m.W_ = sx.sym_array(ctx, "w", (self.d, self.K))
         m.b_ = sx.sym_array(ctx, "b", (1, self.K))
         self.model = m
@@ -238,9 +252,11 @@ class RIMUpdate(SxContract):
     def body(self, inp):
         m = self.model
         m.optimiser_ = _RecOptimiser()
+        m.optimiser_.learning_rate = self.lr
         weights = m._get_weights()
+        before = [np.array(w, dtype=object, copy=True) for w in weights]
         m._update_weights(weights, [inp["gW"].copy(), inp["gb"].copy()])
-        return {"calls": m.optimiser_.calls, "weights": weights}
+        return {"calls": m.optimiser_.calls, "weights": weights, "before": before, "seen": getattr(m.optimiser_, "seen", None)}
 
     def ensures(self, inp, out):
         calls = out["calls"]
@@ -259,7 +275,11 @@ class RIMUpdate(SxContract):
             yield f"direction[0]{list(idx)}==grad+d penalty", prove.eq(grads[0][idx], want)
         for idx in np.ndindex(*m.b_.shape):
             yield f"direction[1]{list(idx)} unchanged", prove.eq(grads[1][idx], inp["gb"][idx])
+        # the parameters move only through the optimiser: they reach it with the values they had on entry
+        for j, (b0, b1) in enumerate(zip(out["before"], out["seen"] or [])):
+            for idx in np.ndindex(*b0.shape):
+                yield f"parameter[{j}]{list(idx)} untouched before the optimiser step", prove.eq(b1[idx], b0[idx])
 
 
-def task_rim(d, K, seed=0):
-    return run_sx(RIMUpdate(d, K), seed=seed)
+def task_rim(d, K, seed=0, solver="adam"):
+    return run_sx(RIMUpdate(d, K, solver), seed=seed)
